@@ -27,7 +27,7 @@ def sh(cmd, cwd=None, env=None, timeout=3600):
     return subprocess.run(cmd, cwd=cwd, env=env, capture_output=True, text=True, timeout=timeout)
 
 
-def evaluate(d, tests, tier, extra):
+def evaluate(d, tests, tier, extra, no_check=False):
     d = os.path.abspath(d)
     name = os.path.basename(d.rstrip('/'))
     meta = json.load(open(os.path.join(d, 'meta.json')))
@@ -64,6 +64,9 @@ def evaluate(d, tests, tier, extra):
             rt = sh(tcmd, cwd=wt, env=env_demo, timeout=3600)
             res['tests'] = rt.stdout.strip().splitlines()[-1] if rt.stdout.strip() else rt.stderr[-200:]
             res['tests_pass'] = rt.returncode == 0
+        if no_check:
+            res['wall_s'] = round(time.time() - t0, 1)
+            return res
         envc = dict(env, VERIF_REPO=wt, VERIF_REPLAY_DIR=os.path.join(wt, '_replays'),
                     VERIF_EVIDENCE_DIR=os.path.join(wt, '_evidence'))
         rc = sh([os.path.join(VERIF, 'check'), prop, '--tier', tier] + extra, cwd=VERIF, env=envc, timeout=7200)
@@ -86,11 +89,12 @@ def main():
     ap.add_argument('--tier', default='quick')
     ap.add_argument('--jobs', type=int, default=2)
     ap.add_argument('--extra', default='')
+    ap.add_argument('--no-check', action='store_true')
     args = ap.parse_args()
     extra = args.extra.split() if args.extra else []
     out = []
     with cf.ThreadPoolExecutor(max_workers=args.jobs) as ex:
-        for r in ex.map(lambda d: evaluate(d, args.tests, args.tier, extra), args.dirs):
+        for r in ex.map(lambda d: evaluate(d, args.tests, args.tier, extra, args.no_check), args.dirs):
             out.append(r)
             print(json.dumps(r), flush=True)
     return 0
